@@ -524,6 +524,13 @@ def gen_reader(dbmap_path, outp, tier):
         {"class": "ModuleScript", "name": "m", "parent": 0, "props": [
             ("Source", "ProtectedString", "<![CDATA[print(\"<hi>\") -- ]] ok]]>", "String:" + hexs(b"print(\"<hi>\") -- ]] ok")),
         ]},
+        # database-known Ref properties that are stored under another (serialized) name, one
+        # backward and one forward reference
+        {"class": "WeldConstraint", "name": "w", "parent": 0, "props": [
+            ("Part0Internal", "Ref", "@1", "Ref:#1"),
+            ("Part1Internal", "Ref", "@4", "Ref:#4"),
+        ]},
+        {"class": "Part", "name": "q", "parent": 0, "props": []},
     ]))
     # DOM 3: references and shared strings (unknown property names on known classes, ReadUnknown)
     doms.append(("refs", "unknown", [
@@ -551,7 +558,12 @@ def gen_reader(dbmap_path, outp, tier):
                 if tag == "SharedString":
                     body = base64.b64encode(("md5-" + body[1:]).encode()).decode()
                 if tag == "BinaryString" and wrap76:
-                    body = "\n".join(body[k:k + 76] for k in range(0, len(body), 76))
+                    # RFC 2045: lines of at most 76 characters; everything outside the base64 alphabet
+                    # (line breaks, indentation) must be ignored by the decoder
+                    sep = wrap76 if isinstance(wrap76, str) else "\n"
+                    body = sep.join(body[k:k + 76] for k in range(0, len(body), 76))
+                    if isinstance(wrap76, str) and len(wrap76) > 1:
+                        body = wrap76 + body + wrap76
                 inner.append(prop_xml(tag, name, body))
             # Name can be anywhere among the properties
             if prop_perm is not None:
@@ -576,7 +588,10 @@ def gen_reader(dbmap_path, outp, tier):
             for k in sorted(used):
                 b = base64.b64encode(sstr_defs[k]).decode()
                 if wrap76:
-                    b = "\n".join(b[j:j + 8] for j in range(0, len(b), 8))
+                    sep = wrap76 if isinstance(wrap76, str) else "\n"
+                    b = sep.join(b[j:j + 8] for j in range(0, len(b), 8))
+                    if isinstance(wrap76, str) and len(wrap76) > 1:
+                        b = wrap76 + b + wrap76
                 defs.append('<SharedString md5="%s">%s</SharedString>' % (base64.b64encode(("md5-" + k).encode()).decode(), b))
             ss = nl + "<SharedStrings>" + "".join(defs) + "</SharedStrings>"
         meta = '<Meta name="ExplicitAutoJoints">true</Meta>'
@@ -668,7 +683,7 @@ def gen_reader(dbmap_path, outp, tier):
         doc, mode = render(dom, base_refs, None, "newline", {"meta-first", "external-first", "studio-attrs", "declaration"}, False, False)
         emit(doc, exp, "optional:all", mode)
         for sf in (False, True):
-            for w in (False, True):
+            for w in (False, True, "\r\n", "\n\t\t", "\n    ", " "):
                 doc, mode = render(dom, base_refs, None, "newline", set(), sf, w)
                 emit(doc, exp, "sharedstrings-position/base64-wrapping", mode)
 
